@@ -562,6 +562,28 @@ def run_matching(pid, tier, t0, want="C06"):
                   "inputs the macro rejects at compile time (e.g. three parenthesised top-level alternatives) are outside the statement"], t0, divs)
 
 
+def run_render(pid, tier, t0):
+    import gen, gen_c19
+    fam = "Q" if tier == "quick" else "T"
+    inst = {"module": "MC_Render", "spec": "Spec", "constants": {"Fam": '"%s"' % fam, "EmitOn": True}, "invariants": ["Emit"]}
+    r, cases = gen.tlc_cases(inst, "render_" + pid.lower())
+    main_rs, exp = gen_c19.render(cases)
+    gen.write_crate("gen_c19r", main_rs)
+    obs, info = gen.build_and_run("gen_c19r", timeout=3000)
+    if obs is None:
+        errs, _ = gen.check_errors("gen_c19r")
+        log(str(info)[-3000:])
+        raise ToolError("generated message program does not build/run (%d compile errors; first: %s)" % (len(errs), errs[:1]))
+    d = gen_c19.compare(exp, obs)
+    divs = [{"what": x["what"], "step": 0, "expected": x["expected"], "observed": x["observed"], "beh": {"kind": "generated-case", "case": x["exp"]}, "in_scope": True} for x in d]
+    cov = {"evaluations": len(exp), "distinct_nontrivial": len(exp), "programs": len(exp), "states": r["distinct"], "transitions": r["generated"],
+           "traces_validated_against_impl": len(exp), "exhaustive": True,
+           "samples": [{"signature": e["signature"], "error": e["err"], "expected_call": e["call"], "expected_pattern": e["pattern"]} for e in list(exp.values())[40:44]],
+           "rule": "TLC enumerates method shapes (arity 0-3 over 13 argument kinds: by value, &, &&, &mut, &str, String, slices, Vec, non-Debug, generic, Option<&str>, Debug struct) x the nine mock-induced error kinds and computes the expected call rendering (tla/Shapes.tla RenderArg/CallText), the pattern text and the rejecting positions; one trait and one scenario per case are generated with pairwise-distinct argument values; the panic message must start with Trait::method(args) (or name Trait::method for the two implementation-missing errors) and contain Trait::method(src) at file:line of the matching! invocation"}
+    return finish(pid, tier, "exploration", cov, ["wording between the structural parts and the diff rendering are out of scope",
+                  "patterns in these scenarios are literals / wildcards (other patterns against reference arguments do not compile: autoref ambiguity)"], t0, divs)
+
+
 COMMON_ASSUME = [
     "argument domain is a small finite set; matchers are total and side-effect free",
     "expectations are produced by TLC from tla/Mock.tla; the harness only compares observables (return ids, panic classes, verification lines, drop counters)",
@@ -622,6 +644,9 @@ def run_property(pid, tier, t0):
         return run_c14(pid, tier, t0)
     if pid == "C06":
         return run_matching(pid, tier, t0, "C06")
+    if pid == "C19":
+        return composite(pid, tier, t0, [("call / argument / pattern rendering per error kind (Shapes.tla Render)", lambda: run_render(pid, tier, t0)),
+                                         ("mismatch positions of guard-free single-alternative patterns (Matching.tla MismatchPositions)", lambda: run_matching(pid, tier, t0, "C19"))])
     if pid in mockplans.PLANS:
         return mock()
     if pid in CONC_PROGS:
